@@ -244,7 +244,9 @@ func (t *typedName) Parts() []string {
 				panic(px.Error(px.InvalidCharactersInName, issue.H{`name`: t.name}))
 			}
 		}
-		t.parts = parts
+		// not stored: a typed name is shared between go routines (the parts of a parent or child name are set when
+		// it is created)
+		return parts
 	}
 	return t.parts
 }
